@@ -147,3 +147,68 @@ func checkDayText(c dayText) *rp.Fail {
 	}
 	return nil
 }
+
+// Keyword text: the parsers that recognise names (card formats, task types, door control states, weekday names) are handed
+// their own keywords - harvested from the library's source - wrapped in text that trips case-insensitive matching written by
+// hand: letters whose lower / upper case form has another byte length (U+023A, U+023E, U+0130, U+1E9E, the Kelvin and
+// Angstrom signs), invalid UTF-8, combining marks. A value or an error, never a crash.
+type keywordText struct {
+	S string `json:"text"`
+}
+
+var caseTraps = []string{"Ⱥ", "Ⱦ", "İ", "ẞ", "K", "Å", "ǅ", "ß", "ı", "\xff", "\xff\xfe", "\xc3", "\xe2\x82", "é", "ͅ", "ﬁ", "Σ", "ς"}
+
+func genKeywordText(t *rapid.T) keywordText {
+	kw := rapid.SampledFrom([]string{"wiegand", "Wiegand-26", "wiegand26", "any", "ANY", "normally open", "normally closed", "controlled", "control door", "unlock door", "lock door", "enable time profile",
+		"disable time profile", "enable card, no password", "enable card+IN password", "enable card+password", "enable more cards", "disable more cards", "trigger once", "disable pushbutton",
+		"enable pushbutton", "Monday", "Sunday", "monday,tuesday"}).Draw(t, "keyword")
+	if rapid.IntRange(0, 3).Draw(t, "dict") == 0 {
+		kw = gen.DictString(t, "keyword.dict")
+	}
+	trap := func(label string) string {
+		n := rapid.IntRange(0, 3).Draw(t, label+".n")
+		var b strings.Builder
+		for i := 0; i < n; i++ {
+			b.WriteString(rapid.SampledFrom(caseTraps).Draw(t, label))
+		}
+		return b.String()
+	}
+	s := trap("before") + kw + trap("after")
+	switch rapid.IntRange(0, 5).Draw(t, "shape") {
+	case 0:
+		s = strings.ToUpper(s)
+	case 1: // the keyword cut short, so that little follows the trap
+		if len(kw) > 3 {
+			s = trap("before2") + kw[:rapid.IntRange(1, len(kw)-1).Draw(t, "cut")]
+		}
+	case 2: // a trap inside the keyword
+		if len(kw) > 2 {
+			i := rapid.IntRange(1, len(kw)-1).Draw(t, "at")
+			s = kw[:i] + rapid.SampledFrom(caseTraps).Draw(t, "inside") + kw[i:]
+		}
+	}
+	return keywordText{S: s}
+}
+
+func checkKeywordText(c keywordText) *rp.Fail {
+	ev.Case("keyword-text", true, c.S)
+	js, _ := json.Marshal(c.S)
+	raw := []byte(`"` + strings.NewReplacer(`"`, `\"`, `\`, `\\`).Replace(c.S) + `"`) // (also as JSON whose bytes are not valid UTF-8)
+	for name, f := range map[string]func(){
+		"types.CardFormatFromString":       func() { types.CardFormatFromString(c.S) },
+		"types.CardFormat.UnmarshalConf":   func() { var f types.CardFormat; f.UnmarshalConf("format", map[string]string{"format": c.S}) },
+		"types.TaskType.UnmarshalJSON":     func() { var k types.TaskType; json.Unmarshal(js, &k); k.UnmarshalJSON(raw) },
+		"types.TaskType.UnmarshalTSV":      func() { var k types.TaskType; k.UnmarshalTSV(c.S) },
+		"types.ControlState.UnmarshalJSON": func() { var v types.ControlState; json.Unmarshal(js, &v); v.UnmarshalJSON(raw) },
+		"types.Weekdays.UnmarshalJSON":     func() { var w types.Weekdays; json.Unmarshal(js, &w); w.UnmarshalJSON(raw) },
+		"types.Task.UnmarshalJSON": func() {
+			var k types.Task
+			json.Unmarshal([]byte(fmt.Sprintf(`{"task":%s,"door":3,"start-date":"2024-01-01","end-date":"2024-12-31","weekdays":%s,"start":"08:30"}`, js, js)), &k)
+		},
+	} {
+		if p := try(f); p != nil {
+			return rp.Failf(name+"/panic", "%s with the text %q panicked: %v", name, c.S, p)
+		}
+	}
+	return nil
+}
